@@ -342,10 +342,17 @@ func randomOtherFlags(r *gen.R, keep ...slog.Flags) []string {
 // doomedRecord logs, through a logger of its own, a record one of whose values (inside a group) panics while it is
 // being formatted; the application recovers, as a service with a recover middleware does. Nothing of that record may
 // show in any later one.
+//
+// After that, the same logger issues a record whose LAST attribute (in key order) is a top-level attribute named
+// "time" that holds a time.Time - the library's documented special case, printed with the timestamp layout. Nothing of
+// that record may show in a later one either.
 func doomedRecord(f Format, w io.Writer) {
-	defer func() { _ = recover() }()
 	lg := newRoot("doomed", f, w, slog.AlwaysLevel)
-	lg.Info("doomed", "aa-doomed", 1, "req-doomed", slog.NewGroupedAttrEasy("inner", "user", &panicOnce{}), "zz-doomed", 2)
+	func() {
+		defer func() { _ = recover() }()
+		lg.Info("doomed", "aa-doomed", 1, "req-doomed", slog.NewGroupedAttrEasy("inner", "user", &panicOnce{}), "zz-doomed", 2)
+	}()
+	lg.Info("a record with a top-level time attribute", "a", 1, "time", time.Unix(1700000000, 0))
 }
 
 // panicOnce panics the first time it is formatted and prints normally afterwards.
